@@ -15,6 +15,9 @@ callers and helper threads, is the half of it that concerns the two locks
   through its nine program points and leaves the other threads where they are; an awaitable only
   moves forward too (`C17_awaitable_moves_forward`).
 
+`C17_helper_steps_bounded` lifts that to whole executions: in every accepted trace a helper
+thread has at most eight steps.
+
 Together: a helper thread takes at most eight steps, none of them can be refused for ever, so
 under a fair scheduler every borrowing `ensure_aw` call whose awaitable finishes gets its helper
 thread to `done` (and then `ret` is enabled, `C17_borrow_returns`).
@@ -187,5 +190,93 @@ example : ∃ s, accepts {}
     s.closed = false ∧ (s.thr 11).live = true ∧ s.holder 0 = some 10 := by
   refine ⟨_, rfl, ?_⟩
   decide
+
+
+/-- No step of anybody moves a helper thread backwards. -/
+theorem rank_mono (s s' : St) (lb : Label) (t : Nat) (hs : step s lb = some s') :
+    (s.thr t).rank ≤ (s'.thr t).rank := by
+  cases hl : lb.thread with
+  | some u =>
+    have h := C17_helper_moves_forward s s' lb u hl hs
+    by_cases e : t = u
+    · subst e; exact Nat.le_of_lt h.1
+    · rw [h.2 t e]; exact Nat.le_refl _
+  | none =>
+    cases lb <;> simp only [Label.thread, reduceCtorEq] at hl
+    all_goals simp only [step] at hs
+    case stopRequest => simp only [Option.some.injEq] at hs; subst hs; exact Nat.le_refl _
+    all_goals (repeat' split at hs)
+    all_goals (first
+      | (exfalso; simp at hs; done)
+      | (simp only [Option.some.injEq] at hs; subst hs; (try simp only [upd]); (try split) <;> simp_all [TPc.rank]))
+
+/-- How many of the labels of a trace are steps of helper thread `t`. -/
+def ownSteps (t : Nat) : List Label → Nat
+  | [] => 0
+  | lb :: ls => (if lb.thread = some t then 1 else 0) + ownSteps t ls
+
+theorem ownSteps_le (t : Nat) (ls : List Label) : ∀ (s s' : St), accepts s ls = some s' →
+    ownSteps t ls + (s.thr t).rank ≤ (s'.thr t).rank := by
+  induction ls with
+  | nil => intro s s' h; simp [accepts] at h; subst h; simp [ownSteps]
+  | cons lb ls ih =>
+    intro s s' h
+    simp only [accepts] at h
+    split at h
+    · rename_i s1 h1
+      have := ih s1 s' h
+      simp only [ownSteps]
+      split
+      · rename_i ho
+        have := (C17_helper_moves_forward s s1 lb t ho h1).1
+        omega
+      · have := rank_mono s s1 lb t h1
+        omega
+    · simp at h
+
+theorem rank_le_nine (p : TPc) : p.rank ≤ 9 := by cases p <;> simp [TPc.rank]
+
+/-- A step of a helper thread is possible only once it has been spawned. -/
+theorem own_step_needs_spawn (s s' : St) (lb : Label) (t : Nat) (hl : lb.thread = some t)
+    (hs : step s lb = some s') : 1 ≤ (s.thr t).rank := by
+  cases lb <;> simp only [Label.thread, Option.some.injEq, reduceCtorEq] at hl
+  all_goals subst hl
+  all_goals simp only [step] at hs
+  all_goals (repeat' split at hs)
+  all_goals (first
+    | (exfalso; simp at hs; done)
+    | (simp_all [TPc.rank]))
+
+theorem ownSteps_lt (t : Nat) (ls : List Label) : ∀ (s s' : St), accepts s ls = some s' →
+    ownSteps t ls = 0 ∨ ownSteps t ls + 1 ≤ (s'.thr t).rank := by
+  induction ls with
+  | nil => intro s s' _; left; rfl
+  | cons lb ls ih =>
+    intro s s' h
+    simp only [accepts] at h
+    split at h
+    · rename_i s1 h1
+      simp only [ownSteps]
+      split
+      · rename_i ho
+        right
+        have a := own_step_needs_spawn s s1 lb t ho h1
+        have b := (C17_helper_moves_forward s s1 lb t ho h1).1
+        have c := ownSteps_le t ls s1 s' h
+        omega
+      · rcases ih s1 s' h with h0 | h0
+        · left; omega
+        · right; omega
+    · simp at h
+
+/-- **Bounded.** In every execution, whatever the interleaving, a helper thread takes at most
+eight steps (`spawn` puts it at rank 1, `done` is rank 9): with `C17_helpers_never_stuck` - no
+helper move can be refused for ever - every borrowing call's thread reaches `done` under a fair
+scheduler. -/
+theorem C17_helper_steps_bounded (ls : List Label) (s : St) (hs : accepts {} ls = some s) (t : Nat) :
+    ownSteps t ls ≤ 8 := by
+  have h9 := rank_le_nine (s.thr t)
+  rcases ownSteps_lt t ls {} s hs with h0 | h0 <;> omega
+
 
 end AiutiVerif.CrossLoop
